@@ -159,6 +159,29 @@ func project(st *account.AccountDB, refundHeights []uint64) map[string]interface
 		}
 	}
 	out["propDetail"] = pd
+	// activity boundary: a proposer takes part in the election from its apply height on
+	// (height >= ApplyHeight, as GetAllMinerIdAndAccount / GetProposerTotalStakeWithDetail state it)
+	atApply := make([]int, nIds)  // 1 listed at h = ApplyHeight, 0 not listed, -1 not applicable
+	before := make([]int, nIds)   // same at h = ApplyHeight - 1
+	for i := 1; i <= nIds; i++ {
+		atApply[i-1], before[i-1] = -1, -1
+		m := mm.GetMiner(minerIds[i], st)
+		if m == nil || m.Type != common.MinerTypeProposer || m.Status != common.MinerStatusNormal || m.ApplyHeight == 0 {
+			continue
+		}
+		key := common.ToHex(minerIds[i])
+		_, d1 := mm.GetProposerTotalStakeWithDetail(m.ApplyHeight, st)
+		_, d0 := mm.GetProposerTotalStakeWithDetail(m.ApplyHeight-1, st)
+		atApply[i-1], before[i-1] = 0, 0
+		if _, ok := d1[key]; ok {
+			atApply[i-1] = 1
+		}
+		if _, ok := d0[key]; ok {
+			before[i-1] = 1
+		}
+	}
+	out["propAtApplyHeight"] = atApply
+	out["propBeforeApplyHeight"] = before
 	out["propTotalUniverse"] = int(sum)
 	out["propOthers"] = int(total - sum)
 	out["propCountOthers"] = len(detail) - cnt
